@@ -20,6 +20,7 @@ def handleLine (line : String) : Verdict :=
   | [] => .bad "empty"
   | op :: args =>
     if op == "ops.lincorr" || op == "lib.f53" then handleLinCorr op args impl
+    else if op == "ops.seq" then handleSeq args impl
     else if op.startsWith "ops." then handleOps3 op args impl
     else if op == "lib.html" then handleLib op args impl
     else if op.startsWith "srt." then handleSRT op args impl
